@@ -57,7 +57,7 @@ pub fn campaigns(p: Prop) -> Vec<Campaign> {
         Prop::C16 => vec![c("map-bulk", MapHist, &[T, T, P], 12, (2500, 120_000)), c("set-bulk", SetHist, &[T, T, P], 12, (2000, 100_000))],
         Prop::C17 => vec![c("map-liar", MapHist, &[T], 40, (2500, 150_000)), c("set-liar", SetHist, &[T], 40, (1500, 80_000)), c("alg-liar", SetAlg, &[T], 24, (800, 40_000))],
         Prop::C18 => vec![c("unchecked-lockstep", MapHist, &[T, T, P, STR], 40, (2500, 150_000))],
-        Prop::C19 => vec![c("map-fmt", MapHist, &[T, P, P, STR, STR, L], 30, (1500, 60_000)), c("set-fmt", SetHist, &[T, P, STR], 30, (1000, 40_000)), c("alg-fmt", SetAlg, &[P, STR], 20, (600, 30_000))],
+        Prop::C19 => vec![c("map-fmt", MapHist, &[T, P, P, STR, STR, L, ZK, ZV, ZV], 30, (1500, 60_000)), c("set-fmt", SetHist, &[T, P, STR], 30, (1000, 40_000)), c("alg-fmt", SetAlg, &[P, STR], 20, (600, 30_000))],
         Prop::C20 => vec![],
     }
 }
